@@ -114,6 +114,18 @@ def random_problem(rng, n, steps, dt=None, local=True, phases=True, scale=1.0, x
         else:
             omega[:, j], delta[:, j] = base_o, base_d
             phi[:, j] = base_p if phases else 0.0
+    if phases and rng.random() < 0.4:
+        # special phase values matter: sin(phi) = 0 with cos(phi) = -1 (phi = pi), echo-like 0 / pi patterns,
+        # quarter turns.  Whole steps (all atoms) get exact multiples of pi/2.
+        specials = [0.0, np.pi, -np.pi, np.pi / 2, -np.pi / 2, 2 * np.pi]
+        mode = rng.choice(["all_pi", "echo", "per_step"])
+        for k in range(steps):
+            if mode == "all_pi":
+                phi[k, :] = np.pi
+            elif mode == "echo":
+                phi[k, :] = 0.0 if k < steps // 2 else np.pi
+            else:
+                phi[k, :] = rng.choice(specials)
     pos = np.array([[rng.uniform(0, 4), rng.uniform(0, 4)] for _ in range(n)])
     for _ in range(200):  # keep atoms apart
         d = np.linalg.norm(pos[:, None] - pos[None], axis=-1) + np.eye(n) * 10
